@@ -14,6 +14,7 @@
  *   resize r n         -> bit string of the first min(nbits, n) bits of bitvResize(class n, class, r),
  *                         read with the new class; afterwards the class is n and the other registers
  *                         are dropped
+ *   tostring r         -> bitvToString(r) | text written by bitvPrint(r) | value returned by bitvPrint
  *   manynew n          -> n bit strings separated by spaces (bitvManyNew: cleared vectors)
  */
 #define _GNU_SOURCE 1
@@ -95,6 +96,17 @@ static void doline(char *line)
 	else if (!strcmp(op, "countto"))  printf("%d", bitvCountTo(cls, reg[a[0]], (int) a[1]));
 	else if (!strcmp(op, "unique"))	  printf("%d", bitvUnique1IndexInRange(cls, reg[a[0]], (int) a[1], (int) a[2]));
 	else if (!strcmp(op, "toint"))	  printf("%d", bitvToInt(cls, reg[a[0]]));
+	else if (!strcmp(op, "tostring")) {
+		String	s = bitvToString(cls, reg[a[0]]);
+		char	*mem = NULL;
+		size_t	msz = 0;
+		FILE	*mf = open_memstream(&mem, &msz);
+		int	cc = bitvPrint(mf, cls, reg[a[0]]);
+		fclose(mf);
+		printf("%s|%s|%d", s, mem, cc);
+		free(mem);
+		strFree(s);
+	}
 	else if (!strcmp(op, "fromint"))  { reg[a[0]] = bitvFromInt(cls, (int) a[1]); prbits(cls, reg[a[0]], (int) cls->nbits); }
 	else if (!strcmp(op, "bits"))	  prbits(cls, reg[a[0]], (int) cls->nbits);
 	else if (!strcmp(op, "resize")) {
